@@ -339,6 +339,19 @@ class Sched:
         return self
 
 
+def _log(ev):
+    if CUR is not None:
+        CUR.log.append(ev)
+
+
+def _pt(label, cond=None, timeout_ok=False):
+    """Scheduling point if we run under the scheduler, a no-op otherwise (finalisers running outside an exploration)."""
+    s = CUR
+    if s is None or cur_thread() is None:
+        return False
+    return s.point(label, cond, timeout_ok)
+
+
 # --------------------------------------------------------------------------------------------------
 # modelled primitives: queue
 
@@ -397,17 +410,17 @@ class FakeQueue:
 
     def qsize(self):
         if CUR is not None and cur_thread() is not None:
-            CUR.point(self._lab())
+            _pt(self._lab())
         return len(self.items)
 
     def empty(self):
         if CUR is not None and cur_thread() is not None:
-            CUR.point(self._lab())
+            _pt(self._lab())
         return not self.items
 
     def full(self):
         if CUR is not None and cur_thread() is not None:
-            CUR.point(self._lab())
+            _pt(self._lab())
         return self._full()
 
     def task_done(self):
@@ -456,11 +469,11 @@ class FakeThread:
 
     def join(self, timeout=None):
         vt = self.vt
-        timed = CUR.point(('thr', vt.tid), lambda: vt.done, timeout_ok=timeout is not None)
+        timed = _pt(('thr', vt.tid), lambda: vt.done, timeout_ok=timeout is not None)
         return None
 
     def is_alive(self):
-        CUR.point(('thr', self.vt.tid))
+        _pt(('thr', self.vt.tid))
         return self.vt is not None and not self.vt.done
 
     @property
@@ -494,7 +507,7 @@ class FakeLock:
         return True
 
     def release(self):
-        CUR.point(('lock', self.lid))
+        _pt(('lock', self.lid))
         self.count -= 1
         if self.count <= 0:
             self.owner, self.count = None, 0
@@ -512,14 +525,6 @@ class FakeLock:
 
 class FakeRLock(FakeLock):
     reentrant = True
-
-
-def _pt(label, cond=None, timeout_ok=False):
-    """Scheduling point if we run under the scheduler, a no-op otherwise (code outside an exploration)."""
-    s = CUR
-    if s is None or cur_thread() is None:
-        return False
-    return s.point(label, cond, timeout_ok)
 
 
 class FakeEvent:
@@ -553,18 +558,18 @@ class FakeSemaphore:
 
     def acquire(self, blocking=True, timeout=None):
         if not blocking:
-            CUR.point(('sem', self.sid))
+            _pt(('sem', self.sid))
             if self.value <= 0:
                 return False
         else:
-            timed = CUR.point(('sem', self.sid), lambda: self.value > 0, timeout_ok=timeout is not None)
+            timed = _pt(('sem', self.sid), lambda: self.value > 0, timeout_ok=timeout is not None)
             if timed and self.value <= 0:
                 return False
         self.value -= 1
         return True
 
     def release(self, n=1):
-        CUR.point(('sem', self.sid))
+        _pt(('sem', self.sid))
         self.value += n
 
     def __enter__(self):
@@ -595,11 +600,11 @@ class FakeCondition:
         self.waiters.append(token)
         saved = self.lock.count
         self.lock.owner, self.lock.count = None, 0
-        CUR.point(('cond', self.cid), lambda: token[0], timeout_ok=timeout is not None)
+        _pt(('cond', self.cid), lambda: token[0], timeout_ok=timeout is not None)
         got = token[0]
         if token in self.waiters:
             self.waiters.remove(token)
-        CUR.point(('lock', self.lock.lid), lambda: self.lock.owner is None)
+        _pt(('lock', self.lock.lid), lambda: self.lock.owner is None)
         self.lock.owner, self.lock.count = me, saved
         return got
 
@@ -612,7 +617,7 @@ class FakeCondition:
         return r
 
     def notify(self, n=1):
-        CUR.point(('cond', self.cid))
+        _pt(('cond', self.cid))
         for token in self.waiters[:n]:
             token[0] = True
         del self.waiters[:n]
@@ -665,35 +670,35 @@ class FakeFuture:
         self.state = PENDING
         self._result = None
         self._exc = None
-        self.fid = CUR.new_id('fut')
+        self.fid = CUR.new_id('fut') if CUR else 0
         self.callbacks = []
 
     def _lab(self):
         return ('fut', self.fid)
 
     def cancel(self):
-        CUR.point(self._lab())
+        _pt(self._lab())
         if self.state in (RUNNING, FINISHED):
             return False
         if self.state == PENDING:
             self.state = CANCELLED
-            CUR.log.append(('cancelled', cur_thread().tid, self.fid))
+            _log(('cancelled', cur_thread().tid if cur_thread() else -1, self.fid))
         return True
 
     def cancelled(self):
-        CUR.point(self._lab())
+        _pt(self._lab())
         return self.state == CANCELLED
 
     def running(self):
-        CUR.point(self._lab())
+        _pt(self._lab())
         return self.state == RUNNING
 
     def done(self):
-        CUR.point(self._lab())
+        _pt(self._lab())
         return self.state in (CANCELLED, FINISHED)
 
     def result(self, timeout=None):
-        timed = CUR.point(self._lab(), lambda: self.state in (CANCELLED, FINISHED),
+        timed = _pt(self._lab(), lambda: self.state in (CANCELLED, FINISHED),
                           timeout_ok=timeout is not None)
         if self.state == CANCELLED:
             raise CancelledError()
@@ -706,13 +711,13 @@ class FakeFuture:
     get = result        # multiprocessing.pool.ApplyResult spelling
 
     def exception(self, timeout=None):
-        CUR.point(self._lab(), lambda: self.state in (CANCELLED, FINISHED))
+        _pt(self._lab(), lambda: self.state in (CANCELLED, FINISHED))
         if self.state == CANCELLED:
             raise CancelledError()
         return self._exc
 
     def add_done_callback(self, fn):
-        CUR.point(self._lab())
+        _pt(self._lab())
         if self.state in (CANCELLED, FINISHED):
             fn(self)
         else:
@@ -720,15 +725,15 @@ class FakeFuture:
 
     # worker side
     def set_running_or_notify_cancel(self, veto=None, also=None):
-        CUR.point(self._lab() if also is None else ('multi', (self._lab(), also)))
+        _pt(self._lab() if also is None else ('multi', (self._lab(), also)))
         if self.state == CANCELLED or (veto is not None and veto()):
             return False
         self.state = RUNNING
-        CUR.log.append(('claim', cur_thread().tid, self.fid))
+        _log(('claim', cur_thread().tid if cur_thread() else -1, self.fid))
         return True
 
     def _finish(self, result=None, exc=None, veto=None, also=None):
-        CUR.point(self._lab() if also is None else ('multi', (self._lab(), also)))
+        _pt(self._lab() if also is None else ('multi', (self._lab(), also)))
         if veto is not None and veto():
             return          # the worker process was killed before it could deliver
         self._result, self._exc, self.state = result, exc, FINISHED
@@ -754,7 +759,7 @@ class _PoolBase:
         self.idle = 0
         self.shut = False
         self.terminated = False
-        self.xid = CUR.new_id('executor')
+        self.xid = CUR.new_id('executor') if CUR else 0
 
     # -- (de)serialisation boundary of process pools, executed for real with pickle / dill
     def _ship(self, obj):
@@ -767,7 +772,7 @@ class _PoolBase:
 
     def _submit(self, fn, args, kwargs):
         fut = FakeFuture()
-        CUR.log.append(('submit', cur_thread().tid, fut.fid))
+        _log(('submit', cur_thread().tid if cur_thread() else -1, fut.fid))
         try:
             payload = self._ship((fn, args, kwargs))
         except BaseException as e:      # noqa: BLE001   (real pools report this through the future)
@@ -813,8 +818,9 @@ class _PoolBase:
 
     def _shutdown(self, wait=True, drop_pending=False):
         if drop_pending:
-            CUR.point(('ex', self.xid, 'w'))    # killing the worker processes races with their claims and deliveries
-        CUR.emit('shutdown-begin', self.xid)
+            _pt(('ex', self.xid, 'w'))    # killing the worker processes races with their claims and deliveries
+        if CUR is not None:
+            CUR.emit('shutdown-begin', self.xid)
         self.shut = True
         if drop_pending:
             self.terminated = True
